@@ -51,9 +51,14 @@ _ASSUME = ["C09's progress clause reads 'has a context' as: a context is install
 _TECH = "Coq inductive invariant over a gate-level interleaving model + schedule-controlled differential correspondence (synctest) against the Go code"
 
 _COQ8 = _COQ + ["RefCount/ProofsC08.v", "RefCount/ProofsC08b.v"]
+# the monitors tied to the model for all event lists (model_satisfies_monitors_clauses): needs every proof file of the slice
+_COQMON = ["RefCount/ProofsC08.v", "RefCount/ProofsC08b.v", "RefCount/ProofsC09.v", "RefCount/ProofsC10.v", "RefCount/ProofsC10a.v", "RefCount/ProofsC10b.v",
+           "RefCount/ProofsCodec.v", "RefCount/ProofsMon.v", "RefCount/ProofsMon2.v", "RefCount/ProofsMon3.v", "RefCount/ProofsMon4.v", "RefCount/ProofsMon5.v",
+           "RefCount/ProofsMon6.v", "RefCount/ProofsMon7.v", "RefCount/ProofsMonG.v", "RefCount/ProofsMon8.v", "RefCount/ProofsMon9.v", "RefCount/ProofsMon10.v",
+           "RefCount/ProofsMon11.v", "RefCount/ProofsMon12.v", "RefCount/ProofsMon13.v", "RefCount/ProofsMonThm.v"]
 
 PROPS = {
-    "C08": dict(pid=8, coq=_COQ8 + ["RefCount/ProofsCodec.v", "RefCount/Props_C08.v"], props_file="RefCount/Props_C08.v", models=_MODELS, trusted=_TRUSTED, assumptions=_ASSUME,
+    "C08": dict(pid=8, coq=_COQ + _COQMON + ["RefCount/Props_C08.v"], props_file="RefCount/Props_C08.v", models=_MODELS, trusted=_TRUSTED, assumptions=_ASSUME,
                 meta=dict(
                     text="Coq theorems over ALL well-formed event lists of a gate-level model of RefCount (any number of references, resolve "
                          "goroutines, consumers; every interleaving of API sections, first-select choices, resolver returns, store sections, "
@@ -71,7 +76,7 @@ PROPS = {
                     note=NOTE + "Resolver values are generation-unique (g+1), or empty together with an error (then 'the target does not hold that value' is vacuous: the target never holds the empty value; what is proved and monitored is: the target does not hold g+1 and no reference in the set still has the result as last notification). "
                                 "'Shortly after' = by an enabled internal step (store section) or within the same critical section. Gate placement trusted.",
                     technique=_TECH)),
-    "C09": dict(pid=9, coq=_COQ + ["RefCount/ProofsC08.v", "RefCount/ProofsC09.v", "RefCount/Props_C09.v"], props_file="RefCount/Props_C09.v", models=_MODELS, trusted=_TRUSTED, assumptions=_ASSUME,
+    "C09": dict(pid=9, coq=_COQ + _COQMON + ["RefCount/Props_C09.v"], props_file="RefCount/Props_C09.v", models=_MODELS, trusted=_TRUSTED, assumptions=_ASSUME,
                 meta=dict(
                     text="Coq theorems over ALL event lists of the same model: the done-channel chain invariant (every resolve goroutine waits on "
                          "its predecessor's done channel, which closes only when that goroutine and all earlier ones have finished) => at most one "
@@ -88,7 +93,7 @@ PROPS = {
                                 "root context is not cancelled by its owner: with a cancelled (not cleared) context a queued resolve goroutine may return "
                                 "without resolving (Props_C09 c09_example_cancelled_root_no_progress; monitor clause 9.3 is conditioned accordingly).",
                     technique=_TECH)),
-    "C10": dict(pid=10, coq=_COQ8 + ["RefCount/ProofsC10.v", "RefCount/ProofsC10a.v", "RefCount/ProofsC10b.v", "RefCount/Props_C10.v"], props_file="RefCount/Props_C10.v", models=_MODELS, trusted=_TRUSTED, assumptions=_ASSUME,
+    "C10": dict(pid=10, coq=_COQ + _COQMON + ["RefCount/Props_C10.v"], props_file="RefCount/Props_C10.v", models=_MODELS, trusted=_TRUSTED, assumptions=_ASSUME,
                 meta=dict(
                     text="Coq theorems about the same model (consumers = Wait / ResolveWithReleased / Access callers with their reference "
                          "callbacks): from every reachable state, a step that calls a release function while some reference (in particular the "
